@@ -1140,9 +1140,9 @@ pub fn enumerate(tier: &str) -> Vec<Case13> {
 // ---------------------------------------------------------------------------------------------
 // entry points
 
-fn run_all(cases: &[Case13]) -> Vec<Obs13> {
+fn run_capped(cases: &[Case13], deadline: Option<std::time::Instant>) -> Vec<Option<Obs13>> {
     let order = case_order(cases.len());
-    let res = run_pool::<Obs13>(cases.len(), &order, |feed| {
+    run_pool::<Obs13>(cases.len(), &order, deadline, |feed| {
         actix_rt::System::new().block_on(async {
             let with = test::init_service(App::new().wrap(Compress::default()).default_service(web::to(handler))).await;
             let base = test::init_service(App::new().default_service(web::to(handler))).await;
@@ -1155,18 +1155,40 @@ fn run_all(cases: &[Case13]) -> Vec<Obs13> {
                 feed.put(i, o);
             }
         });
-    });
-    res.into_iter()
+    })
+}
+
+fn run_all(cases: &[Case13]) -> Vec<Obs13> {
+    run_capped(cases, None)
+        .into_iter()
         .enumerate()
         .map(|(i, o)| o.unwrap_or_else(|| mc_core::machinery(format!("case {i} was not executed"))))
         .collect()
 }
 
-pub fn main(tier: &str, _wall_cap: Option<u64>) -> i32 {
+pub fn main(tier: &str, wall_cap: Option<u64>) -> i32 {
     let t0 = std::time::Instant::now();
-    let cases = enumerate(tier);
-    eprintln!("C13: {} cases enumerated", cases.len());
-    let obs = run_all(&cases);
+    let cap_s = wall_cap.unwrap_or(if tier == "thorough" { 1500 } else { 50 });
+    let all_cases = enumerate(tier);
+    let enumerated = all_cases.len();
+    eprintln!("C13: {} cases enumerated", enumerated);
+    let raw = run_capped(&all_cases, Some(t0 + std::time::Duration::from_secs(cap_s)));
+    let mut cases = Vec::with_capacity(enumerated);
+    let mut obs = Vec::with_capacity(enumerated);
+    for (c, o) in all_cases.into_iter().zip(raw) {
+        if let Some(o) = o {
+            cases.push(c);
+            obs.push(o);
+        }
+    }
+    let capped = cases.len() < enumerated;
+    if cases.is_empty() {
+        eprintln!("MACHINERY: no case was executed within the wall cap");
+        return 2;
+    }
+    if capped {
+        eprintln!("C13: WALL CAP FIRED after {} of {} cases", cases.len(), enumerated);
+    }
 
     // determinism
     let mut again_idx: Vec<usize> = (0..cases.len().min(64)).collect();
@@ -1261,8 +1283,10 @@ pub fn main(tier: &str, _wall_cap: Option<u64>) -> i32 {
         .set("distinct_nontrivial", distinct.len() as u64)
         .set("rule", "union of four full cartesian products, each run through the real Compress middleware next to a twin App without it (response side) or the real Decompress wrapper (request side): P1 Accept-Encoding{gzip,deflate,br,zstd,identity,absent} x body length x {text, LCG} x chunking (every single cut <= 64 B; head/tail chunks of 1023/1024/1025/2048/2049 B, fixed-size, 1-byte, with empty chunks) x body type {Sized, Stream, Full, none} x Pending; P2 Accept-Encoding menu (all 1- and 2-item lists over 7 tokens x 5 weights, 3-item lists in thorough, hand-written odd/malformed values, multi-line) x 2 bodies; P3 status{200,204,206,304,101} x handler Content-Encoding{none,gzip,identity,br} x handler Content-Length x Content-Type x Accept-Encoding x body; P4 request coding x length x kind x wire chunking x Pending x {Decompress, Bytes extractor}. distinct_nontrivial = distinct (coding, size-class, chunking-shape, status, outcome-class) tuples among cases where the body was really re-encoded by the middleware, answered 406, or decoded from a real (non-identity) request coding")
         .set("samples", samples)
-        .set("exhaustive", true)
-        .set("capped", false)
+        .set("exhaustive", !capped)
+        .set("capped", capped)
+        .set("enumerated", enumerated as u64)
+        .set("cap_note", if capped { "wall cap fired: cases are executed in enumeration order (P1, P2, P3, P4) unless VERIF_SEED permutes it; cases_per_family shows what was covered" } else { "the whole enumerated product was executed" })
         .set("cases_per_family", json!(families))
         .set("response_outcome_histogram", json!(class_hist))
         .set("responses_reencoded", encoded)
